@@ -12,7 +12,12 @@
 //! wrapper, with this file's own bookkeeping released) is larger after the third execution than
 //! after the second, i.e. an execution of this simulation leaves memory allocated for ever.
 //!   log entry: time module kind payload   kind: 1 at_sim_start 2 handle_message 3 task finished
-//!                                               4 at_sim_end 5 reset
+//!                                               4 at_sim_end 5 reset 6 task failed
+//! Modules with (trig/4)%6 != 0 are built from the builder blocks of des/src/net/runtime/blocks.rs:
+//! 1 AsyncFn::new, 2 AsyncFn::failable, 3 AsyncFn::io, 4 ModuleFn::failable, 5 HandlerFn::failable; what
+//! their closures and futures capture is drop-counted (closure captures = module state, the
+//! future's capture = task capture, ModuleFn's generated state = processing element class).
+use des::net::blocks::{AsyncFn, FailabilityPolicy, HandlerFn, ModuleFn};
 use des::net::channel::{Channel, ChannelDropBehaviour, ChannelMetrics};
 use des::net::gate::GateKind;
 use des::net::message::MessageBody;
@@ -221,6 +226,140 @@ impl Module for ScriptModule {
     }
 }
 
+#[derive(Debug)]
+struct Scripted(&'static str);
+impl std::fmt::Display for Scripted {
+    fn fmt(&self, f: &mut std::fmt::Formatter<'_>) -> std::fmt::Result {
+        write!(f, "{}", self.0)
+    }
+}
+impl std::error::Error for Scripted {}
+
+/// the body of an AsyncFn task: receive for ever; at the trign-th message end / fail / ask for a restart
+async fn block_task(
+    mut rx: tokio::sync::mpsc::Receiver<Message>,
+    m: u64,
+    cfg: Cfg,
+    handled: std::sync::Arc<AtomicU64>,
+    can_fail: bool,
+) -> std::io::Result<()> {
+    let cap = NTASK.fetch_add(1, SeqCst);
+    let _t = Tracked::new(T);
+    while let Some(msg) = rx.recv().await {
+        let pay = msg.content::<Body>().pay;
+        log(m, 2, pay);
+        drop(msg);
+        let n = handled.fetch_add(1, SeqCst) + 1;
+        if n == cfg.trign {
+            match cfg.trig % 4 {
+                1 => {
+                    log(m, 3, cap);
+                    return Ok(());
+                }
+                2 => current().shutdow_and_restart_in(Duration::from_nanos(cfg.trigd)),
+                3 => {
+                    if can_fail {
+                        log(m, 6, cap);
+                        return Err(std::io::Error::new(std::io::ErrorKind::Other, "scripted failure"));
+                    }
+                    log(m, 3, cap);
+                    return Ok(());
+                }
+                _ => {}
+            }
+        }
+    }
+    Ok(())
+}
+
+/// module i as a builder block (kind 1..5)
+fn add_block(sim: &mut des::net::SimBuilder<()>, path: &str, i: u64, kind: u64, cfg: &Cfg) {
+    let state = Tracked::new(P);
+    let handled = std::sync::Arc::new(AtomicU64::new(0));
+    let c = cfg.clone();
+    match kind {
+        1 => sim.node(
+            path,
+            AsyncFn::new(move |rx| {
+                let _keep = &state;
+                log(i, 1, 0);
+                let (c, h) = (c.clone(), handled.clone());
+                async move {
+                    let _ = block_task(rx, i, c, h, false).await;
+                }
+            }),
+        ),
+        2 => sim.node(
+            path,
+            AsyncFn::failable(move |rx| {
+                let _keep = &state;
+                log(i, 1, 0);
+                block_task(rx, i, c.clone(), handled.clone(), true)
+            }),
+        ),
+        3 => sim.node(
+            path,
+            AsyncFn::io(move |rx| {
+                let _keep = &state;
+                log(i, 1, 0);
+                block_task(rx, i, c.clone(), handled.clone(), true)
+            }),
+        ),
+        4 => {
+            let policy = match cfg.trig % 4 {
+                2 => FailabilityPolicy::Restart,
+                3 => FailabilityPolicy::Panic,
+                _ => FailabilityPolicy::Continue,
+            };
+            let fails = cfg.trig % 4 != 0;
+            sim.node(
+                path,
+                ModuleFn::failable(
+                    move || {
+                        let _keep = &state;
+                        log(i, 1, 0);
+                        Tracked::new(E)
+                    },
+                    move |_st: &mut Tracked, msg: Message| {
+                        let pay = msg.content::<Body>().pay;
+                        log(i, 2, pay);
+                        drop(msg);
+                        let n = handled.fetch_add(1, SeqCst) + 1;
+                        if n == c.trign && fails {
+                            Err(Scripted("scripted failure"))
+                        } else {
+                            Ok(())
+                        }
+                    },
+                    policy,
+                ),
+            )
+        }
+        _ => {
+            let policy = if cfg.trig % 4 == 3 { FailabilityPolicy::Panic } else { FailabilityPolicy::Continue };
+            let fails = cfg.trig % 4 != 0;
+            sim.node(
+                path,
+                HandlerFn::failable(
+                    move |msg: Message| {
+                        let _keep = &state;
+                        let pay = msg.content::<Body>().pay;
+                        log(i, 2, pay);
+                        drop(msg);
+                        let n = handled.fetch_add(1, SeqCst) + 1;
+                        if n == c.trign && fails {
+                            Err(Scripted("scripted failure"))
+                        } else {
+                            Ok(())
+                        }
+                    },
+                    policy,
+                ),
+            )
+        }
+    }
+}
+
 fn dec_mod(c: &mut Cur) -> Cfg {
     let parent = c.next();
     let npe = c.next().min(2);
@@ -300,6 +439,11 @@ fn run_once(sc: &Script) -> Vec<u64> {
                 format!("m{i}")
             };
             paths.push(path.clone());
+            let kind = (cfg.trig / 4) % 6;
+            if kind != 0 {
+                add_block(&mut sim, path.as_str(), i as u64, kind, cfg);
+                continue;
+            }
             let elems = (0..cfg.npe).map(|_| Elem { _t: Tracked::new(E) }).collect();
             sim.node(
                 path.as_str(),
